@@ -230,6 +230,11 @@ hwloc_shmem_topology_adopt(hwloc_topology_t *topologyp,
   /* clear userdata callbacks pointing to the writer process' functions */
   new->userdata_export_cb = NULL;
   new->userdata_import_cb = NULL;
+  /* duplicate allowed sets so that hwloc_topology_allow() may modify them */
+  new->allowed_cpuset = hwloc_bitmap_dup(old->allowed_cpuset);
+  new->allowed_nodeset = hwloc_bitmap_dup(old->allowed_nodeset);
+  if (!new->allowed_cpuset || !new->allowed_nodeset)
+    goto out_with_allowed;
   /* duplicate topo infos so that we can modify them */
   new->infos.array = NULL;
   new->infos.count = 0;
@@ -244,6 +249,9 @@ hwloc_shmem_topology_adopt(hwloc_topology_t *topologyp,
   *topologyp = new;
   return 0;
 
+ out_with_allowed:
+  hwloc_bitmap_free(new->allowed_cpuset);
+  hwloc_bitmap_free(new->allowed_nodeset);
  out_with_support:
   free(new->support.discovery);
   free(new->support.cpubind);
@@ -262,6 +270,8 @@ hwloc__topology_disadopt(hwloc_topology_t topology)
 {
   hwloc_components_fini();
   hwloc__free_infos(&topology->infos);
+  hwloc_bitmap_free(topology->allowed_cpuset);
+  hwloc_bitmap_free(topology->allowed_nodeset);
   munmap(topology->adopted_shmem_addr, topology->adopted_shmem_length);
   free(topology->support.discovery);
   free(topology->support.cpubind);
